@@ -370,6 +370,11 @@ class TB:
             return ("ref", ("c", k["deref_v"]))
         if k.get("deref_array") is not None:
             return ("ref", ("aggr", ("array",), tuple(("c", v) for v in k["deref_array"])))
+        # constant tables of non-integers (enum values ..) are read element-wise; integer arrays keep their existing forms
+        if k.get("deref_const") is not None and k["deref_const"].get("elems") is not None and any(e.get("v") is None for e in k["deref_const"]["elems"]):
+            return ("ref", self._const_array(k["deref_const"]))
+        if k.get("elems") is not None and any(e.get("v") is None for e in k["elems"]):
+            return self._const_array(k)
         if k.get("deref_const") is not None:
             d = k["deref_const"]
             if "variant" in d:
@@ -379,6 +384,20 @@ class TB:
             return ("cs", k.get("val_s") or k.get("s"), k["variant"],
                     tuple(_cfield(f) for f in k.get("fields", [])))
         return ("cs", k.get("val_s") or k.get("s"))
+
+    def _const_array(self, d):
+        """a constant array as the aggregate of its (constant) elements"""
+        els = []
+        for e in d["elems"]:
+            if e.get("v") is not None:
+                els.append(("c", e["v"]))
+            elif "variant" in e:
+                els.append(("cs", e.get("val_s"), e["variant"], tuple(_cfield(f) for f in e.get("fields", []))))
+            elif e.get("elems") is not None:
+                els.append(self._const_array(e))
+            else:
+                els.append(("cs", e.get("val_s")))
+        return ("aggr", ("array",), tuple(els))
 
     def place(self, pl, at):
         L = pl["l"]
@@ -1081,6 +1100,18 @@ def std_summary(tb, path, upath, fr, args):
         ty = path[len("core::default::impls::<impl core::default::Default for "):-len(">::default")]
         if ty in INT_BITS or ty == "bool":
             return C(0)
+    if path in ("core::ops::range::RangeInclusive::<Idx>::contains", "core::ops::range::Range::<Idx>::contains") and len(args) == 2:
+        # (a..=b).contains(&x)  ==  a <= x && x <= b   (a..b: x < b); integer ranges only
+        r = args[0][1] if args[0][0] == "ref" else None
+        x = args[1][1] if args[1][0] == "ref" else ("deref", args[1])
+        lo = hi = None
+        if r is not None and r[0] == "cs" and len(r) > 3 and len(r[3]) >= 2 and all(isinstance(v, int) for v in r[3][:2]):
+            lo, hi = C(r[3][0]), C(r[3][1])
+        elif r is not None and r[0] == "aggr" and r[1][0] == "adt" and len(r[2]) >= 2:
+            lo, hi = r[2][0], r[2][1]
+        if lo is not None:
+            incl = "RangeInclusive" in path
+            return ("ite", ("cmp", "Le", lo, x), ("bin", "Le" if incl else "Lt", x, hi, None), C(0))
     if path.startswith("<core::option::Option<T> as core::ops::try_trait::FromResidual<core::option::Option<core::convert::Infallible>>>::from_residual") and len(args) == 1:
         # `None?` in a function returning Option: the residual of an Option is None, and from_residual(None) is None (std)
         return ("aggr", ("adt", "core::option::Option", "None", ()), ())
